@@ -43,6 +43,9 @@ type c31Case struct {
 	Seqs []string `json:"seqs"`
 	// Interleave: run a full Close between the first accepter's error check and its lock (yield point)
 	Interleave bool `json:"interleave"`
+	// InterleaveAccept: with Interleave, the operation run at the yield point is a complete Accept by another caller
+	// instead of a Close (an accepter that has started but not yet taken the lock is overtaken by another one)
+	InterleaveAccept bool `json:"interleave_accept,omitempty"`
 	// Sequential runs the goroutines' sequences one after another instead of concurrently
 	Sequential bool `json:"sequential"`
 	// AcceptDuringClose: while the underlying stream is being closed by the solicitation another caller accepts
@@ -50,7 +53,7 @@ type c31Case struct {
 }
 
 func genC31(t *rapid.T) c31Case {
-	c := c31Case{Interleave: rapid.IntRange(0, 2).Draw(t, "il") == 0, Sequential: rapid.Bool().Draw(t, "seq"), AcceptDuringClose: rapid.IntRange(0, 2).Draw(t, "adc") == 0}
+	c := c31Case{InterleaveAccept: rapid.Bool().Draw(t, "ila"), Interleave: rapid.IntRange(0, 2).Draw(t, "il") == 0, Sequential: rapid.Bool().Draw(t, "seq"), AcceptDuringClose: rapid.IntRange(0, 2).Draw(t, "adc") == 0}
 	g := rapid.IntRange(1, 4).Draw(t, "g")
 	for i := 0; i < g; i++ {
 		c.Seqs = append(c.Seqs, rapid.StringMatching(`[aci]{1,4}`).Draw(t, "seq"))
@@ -132,11 +135,19 @@ func checkC31(c c31Case) (o vstat.Outcome) {
 		var fired atomic.Bool
 		verifhook.Set(func(point string) {
 			if point == "solicit:accept-checked" && fired.CompareAndSwap(false, true) {
-				doOp('c')
+				if c.InterleaveAccept {
+					doOp('a')
+				} else {
+					doOp('c')
+				}
 			}
 		})
 		defer verifhook.Set(nil)
-		o.Classes = append(o.Classes, "close-between-check-and-lock")
+		if c.InterleaveAccept {
+			o.Classes = append(o.Classes, "accept-overtaken-by-another-accept")
+		} else {
+			o.Classes = append(o.Classes, "close-between-check-and-lock")
+		}
 	}
 	concurrent := !c.Sequential && len(c.Seqs) > 1 && !c.Interleave
 	if concurrent {
@@ -217,13 +228,16 @@ type c31cCase struct {
 	InCtx   int `json:"in_ctx"`
 	// Accepters: how many holders try to accept each value
 	Concurrent bool `json:"concurrent"`
+	// WarmLocal (0 = none): the controller already tracks a link between another local identity (that key index)
+	// and the same remote peer when the tested link comes up
+	WarmLocal int `json:"warm_local,omitempty"`
 }
 
 var solProtos = []string{"ab", "a", "abc", "b"}
 var solCtxs = []string{"", "c", "bc", "b"}
 
 func genC31c(t *rapid.T) c31cCase {
-	c := c31cCase{InProto: rapid.IntRange(0, 3).Draw(t, "ip"), InCtx: rapid.IntRange(0, 3).Draw(t, "ic"), Concurrent: rapid.Bool().Draw(t, "conc")}
+	c := c31cCase{WarmLocal: rapid.SampledFrom([]int{0, 0, 3, 4}).Draw(t, "warmlocal"), InProto: rapid.IntRange(0, 3).Draw(t, "ip"), InCtx: rapid.IntRange(0, 3).Draw(t, "ic"), Concurrent: rapid.Bool().Draw(t, "conc")}
 	n := rapid.IntRange(1, 3).Draw(t, "n")
 	for i := 0; i < n; i++ {
 		s := solSpec{Peer: rapid.SampledFrom([]int{0, 0, 1, 2}).Draw(t, "peer"), Tpt: rapid.SampledFrom([]int{0, 0, 1, 2}).Draw(t, "tpt")}
@@ -308,6 +322,18 @@ func runSolicit(c c31cCase) (vals [][]link_solicit.SolicitMountedStream, strm *f
 			break
 		}
 		time.Sleep(time.Millisecond)
+	}
+	if c.WarmLocal != 0 {
+		// an earlier link of another local identity with the same remote peer
+		wl := gen.PeerID(c.WarmLocal)
+		wml := &fakes.MountedLink{UUID: 899, TptID: linkTptID, Local: wl, Remote: remote}
+		winst := fakes.NewInstance(link.NewEstablishLinkWithPeer(wl, remote))
+		if _, err := ctrl.HandleDirective(ctx, winst); err == nil {
+			if refs := winst.LiveRefs(); len(refs) == 1 {
+				refs[0].Handler.HandleValueAdded(winst, directive.NewAttachedValue(1, link.MountedLink(wml)))
+				time.Sleep(3 * time.Millisecond)
+			}
+		}
 	}
 	// add the link
 	inst := fakes.NewInstance(link.NewEstablishLinkWithPeer(local, remote))
@@ -474,3 +500,24 @@ var specC30c = vstat.Spec[c31cCase]{
 
 func TestC30Match(t *testing.T)       { vstat.Check(t, specC30c) }
 func TestC30MatchReplay(t *testing.T) { vstat.Replay(t, specC30c) }
+
+// C32 at the controller: both ends of every link derive the same session id (and so the same solicitation set),
+// also when the controller already tracks a link of another local identity with the same remote peer.
+var specC32c = vstat.Spec[c31cCase]{
+	Property: "C32",
+	Rule: "the real solicitation controller with 1-3 local solicitations, optionally already tracking a link between another local identity and the same remote peer; the remote side's solicited stream for (protocol, context) arrives under the hash computed from the tested link's own peer pair; " +
+		"oracle (the match clause of the C30/C31 controller check): a local solicitation identical to the remote one (and admitting the link) is matched - which requires the controller to have derived the same session id for this link as the remote end; non-trivial = a second local identity is linked with the same remote peer",
+	Gen: genC31c,
+	Check: func(c c31cCase) vstat.Outcome {
+		o := checkC31c(c)
+		if o.V != nil && o.V.Kind != "identical-solicitation-not-matched" && o.V.Kind != "matched-different-solicitation" {
+			o.V = nil
+		}
+		o.NonTrivial = c.WarmLocal != 0
+		return o
+	},
+	Inflight: true,
+}
+
+func TestC32Controller(t *testing.T)       { vstat.Check(t, specC32c) }
+func TestC32ControllerReplay(t *testing.T) { vstat.Replay(t, specC32c) }
